@@ -461,7 +461,7 @@ def transport_registration_rule(F, R, rule, op='queue_set'):
     _qs = lambda inst: op in inst
     _c10.ONLY_OPS = {op}
     try:
-        _c10.run(F, RuleProxy(R, {'M2': rule}, only=_qs))
+        _c10.run(F, RuleProxy(R, {'M2': rule, 'M4': rule}, only=_qs))      # M4: the enum wrapper forwards the operation's arguments unchanged
     finally:
         _c10.ONLY_OPS = None
     _c11.run(F, RuleProxy(R, {'W3': rule}, only=_qs))
